@@ -71,6 +71,8 @@ def to_sympy(e, symtab):
     if op == "pow":
         return to_sympy(e["b"], symtab) ** int(e["n"])
     if op == "fn":
+        if e["f"] == "sat":
+            return sympy.Function("sat")(to_sympy(e["a"], symtab))      # user function, resolved through Config.python_modules
         f = getattr(sympy, e["f"])
         return f(to_sympy(e["a"], symtab))
     raise ValueError("unknown op %r" % (op,))
@@ -97,7 +99,26 @@ def to_text(e):
 
 
 _FN = {"sin": math.sin, "cos": math.cos, "exp": math.exp, "tanh": math.tanh, "atan": math.atan,
-       "sqrt": math.sqrt, "log": math.log, "tan": math.tan, "asin": math.asin, "acos": math.acos}
+       "sqrt": math.sqrt, "log": math.log, "tan": math.tan, "asin": math.asin, "acos": math.acos,
+       "sat": lambda v: max(-1.0, min(1.0, v))}
+
+
+def user_sat(v):
+    """the user function the harness supplies as `sat` through Config.python_modules"""
+    return max(-1.0, min(1.0, v))
+
+
+def uses_fn(e, name):
+    op = e["op"]
+    if op in ("sym", "const"):
+        return False
+    if op in ("add", "sub", "mul", "div"):
+        return uses_fn(e["l"], name) or uses_fn(e["r"], name)
+    if op == "neg":
+        return uses_fn(e["a"], name)
+    if op == "pow":
+        return uses_fn(e["b"], name)
+    return e["f"] == name or uses_fn(e["a"], name)
 
 
 def interp(e, env):
@@ -283,6 +304,7 @@ def resolve_presentation(pres, d):
             pres["order"] = order
             pres["container"] = rnd.choice([set, list, tuple, frozenset])
             pres["proactive_simplify"] = rnd.random() < 0.25
+            pres["variety"] = c
         elif c == "list-reversed":
             pres["order"] = {role: list(reversed(sorted(names))) for role, names in roles.items()}
             pres["container"] = list
@@ -315,16 +337,43 @@ def make_ui_model(d, ui, container=set, order=None, as_string=False, symtab=None
     return model, symtab
 
 
-def ekf_args(d, symtab, order=None):
+def _as_kind(x, rnd):
+    """a noise / calibration magnitude as the user might type it: float, int, sympy.Rational or fractions.Fraction"""
+    if rnd is None:
+        return fl(x)
+    import sympy
+    f = frac(x)
+    kinds = ["float", "float", "rational", "fraction"] + (["int"] if f.denominator == 1 else [])
+    k = rnd.choice(kinds)
+    if k == "float":
+        return float(f)
+    if k == "int":
+        return int(f)
+    if k == "rational":
+        return sympy.Rational(f.numerator, f.denominator)
+    return f
+
+
+def ekf_args(d, symtab, order=None, variety=None):
+    """variety: None, or a seed string -> value types (float/int/Rational/Fraction) and, for single-reading sensors, the key
+    type of the reading (str or Symbol) are drawn at random -- all of these are the same abstract definition"""
+    import random as _random
     order = order or {}
-    process_noise = {symtab[c]: fl(d.pnoise[c]) for c in order.get("pnoise", d.control)}
+    rnd = _random.Random("variety:" + variety) if variety else None
+    process_noise = {symtab[c]: _as_kind(d.pnoise[c], rnd) for c in order.get("pnoise", d.control)}
     sensor_models = {}
     sensor_noises = {}
+
+    def rkey(key, r, which):
+        if rnd is None or len(d.sensors[key]) != 1:
+            return r
+        import sympy
+        return sympy.Symbol(r) if rnd.random() < 0.4 else r
     for key in order.get("sensors", sorted(d.sensors)):
         rs = order.get("readings:" + key, sorted(d.sensors[key]))
-        sensor_models[key] = {r: to_sympy(d.sensors[key][r], symtab) for r in rs}
+        sensor_models[key] = {rkey(key, r, "m"): to_sympy(d.sensors[key][r], symtab) for r in rs}
     for key in order.get("snoise", sorted(d.snoise)):
         rs = order.get("snoise:" + key, sorted(d.snoise[key]))
-        sensor_noises[key] = {r: fl(d.snoise[key][r]) for r in rs}
+        sensor_noises[key] = {rkey(key, r, "n"): _as_kind(d.snoise[key][r], rnd) for r in rs}
     calibration_map = {symtab[c]: fl(d.calmap[c]) for c in order.get("calmap", d.calib)}
     return process_noise, sensor_models, sensor_noises, calibration_map
